@@ -27,7 +27,8 @@ Record RI (s : state) : Prop := mkRI {
   r_map' : forall t c, rown_of (t_pc (ts s t)) = Some c -> alookup Nat.eqb (t_key (ts s t)) (calls s) = Some c;
   r_own : forall t c, rown_of (t_pc (ts s t)) = Some c -> cre s c = t /\ c < next s;
   r_free : closed s = false -> forall k, alookup Nat.eqb k (calls s) = None -> cons s k;
-  r_stage : closed s = false -> forall t, stage_ok s (ts s t)
+  r_stage : closed s = false -> forall t, stage_ok s (ts s t);
+  r_done : forall c, wg s c = 0 \/ rown_of (t_pc (ts s (cre s c))) = Some c
 }.
 
 Lemma rinit scripts : RI (init scripts).
@@ -48,7 +49,7 @@ Proof. unfold stage_ok, cons. intros -> ->. auto. Qed.
 
 Lemma RI_frame s s' t :
   RI s ->
-  calls s' = calls s -> next s' = next s -> cre s' = cre s -> resources s' = resources s ->
+  calls s' = calls s -> wg s' = wg s -> next s' = next s -> cre s' = cre s -> resources s' = resources s ->
   closed s' = closed s -> ncre s' = ncre s ->
   (forall u, u <> t -> ts s' u = ts s u) ->
   let p := t_pc (ts s t) in let p' := t_pc (ts s' t) in
@@ -57,8 +58,8 @@ Lemma RI_frame s s' t :
   (closed s = false -> stage_ok s (ts s t) -> stage_ok s (ts s' t)) ->
   RI s'.
 Proof.
-  intros [M M' O F St] Ec En Ecr Er Ecl Enc Ets p p' Hkey Hown Hst.
-  constructor; rewrite ?Ec, ?En, ?Ecr, ?Ecl; auto.
+  intros [M M' O F St Dn] Ec Ew En Ecr Er Ecl Enc Ets p p' Hkey Hown Hst.
+  constructor; rewrite ?Ec, ?Ew, ?En, ?Ecr, ?Ecl; auto.
   - intros k c Hk. destruct (M _ _ Hk) as [A B]. destruct (Nat.eq_dec (cre s c) t) as [E|Hne].
     + rewrite E in *. fold p in A. fold p'. rewrite Hown. split; [assumption|].
       destruct Hkey as [Hkey|Hkey]; [congruence|]. rewrite Hown in Hkey. congruence.
@@ -73,6 +74,9 @@ Proof.
   - intros Hc u. apply (stage_ok_ext s); auto. destruct (Nat.eq_dec u t) as [->|Hne].
     + apply Hst; auto.
     + rewrite (Ets _ Hne). auto.
+  - intros c. destruct (Dn c) as [D|D]; [auto|]. right.
+    destruct (Nat.eq_dec (cre s c) t) as [E|Hne]; [|rewrite (Ets _ Hne); assumption].
+    rewrite E in *. fold p in D. fold p'. congruence.
 Qed.
 
 Ltac rsp := cbn [setpc setpcr t_pc t_key t_gate t_fail t_rv t_re t_todo t_res rown_of].
@@ -91,7 +95,7 @@ Proof.
     destruct (o_code o); injection Hs as <-; rframe HI t Hpc.
   - (* SReg *) destruct (alookup Nat.eqb (t_key (ts s t)) (calls s)) as [c|] eqn:Hlk; injection Hs as <-.
     + rframe HI t Hpc.
-    + pose proof HI as [M M' O F St].
+    + pose proof HI as [M M' O F St Dn].
       assert (Hmapc : forall k c, alookup Nat.eqb k (calls s) = Some c -> c < next s /\ cre s c <> t).
       { intros k c Hk. destruct (M _ _ Hk) as [A B]. destruct (O _ _ A) as (O1 & O2). split; [assumption|].
         intro E. rewrite E, Hpc in A. discriminate. }
@@ -112,6 +116,10 @@ Proof.
       * intros Hc u. case_t u t.
         -- unfold stage_ok. rsp. apply (F Hc). assumption.
         -- apply (St Hc).
+      * intros c. destruct (Nat.eq_dec c (next s)) as [->|Hn].
+        -- right. rewrite !upd_same. reflexivity.
+        -- rewrite !(upd_other _ (next s)) by assumption. destruct (Dn c) as [D|D]; [auto|]. right.
+           case_t (cre s c) t; [rewrite Hpc in D; discriminate|assumption].
   - (* SWait *) destruct (Nat.eqb (wg s c) 0); [|discriminate]. injection Hs as <-. rframe HI t Hpc.
   - (* FRLock *) destruct (writer s); [discriminate|]. injection Hs as <-. rframe HI t Hpc.
   - (* FRead *) destruct (alookup Nat.eqb (t_key (ts s t)) (resources s)) as [id|] eqn:Hr; injection Hs as <-; rframe HI t Hpc.
@@ -121,7 +129,7 @@ Proof.
   - (* CrB *) injection Hs as <-. rframe HI t Hpc.
   - (* CrE *) destruct (gate_open (open s) (t_gate (ts s t))); [|discriminate].
     destruct (Nat.eqb (t_fail (ts s t)) 0); injection Hs as <-.
-    + pose proof HI as [M M' O F St].
+    + pose proof HI as [M M' O F St Dn].
       assert (Hmine : alookup Nat.eqb (t_key (ts s t)) (calls s) = Some c) by (apply M'; rewrite Hpc; reflexivity).
       constructor; cbn [calls wg cval cerr next resources closed readers writer nextid open ts trace cre ncre closedids].
       * intros k c' Hk. destruct (M _ _ Hk) as [A B]. case_t (cre s c') t; rsp; [|auto]. rewrite Hpc in A. auto.
@@ -135,11 +143,12 @@ Proof.
            destruct (rown_of (t_pc (ts s u))) as [d|] eqn:Hou.
            ++ exfalso. apply E. apply (r_unique s u t d c HI Hou); [rewrite Hpc; reflexivity|assumption].
            ++ destruct (t_pc (ts s u)); simpl in Hou; try discriminate; exact Logic.I.
+      * intros c'. destruct (Dn c') as [D|D]; [auto|]. right. case_t (cre s c') t; rsp; [rewrite Hpc in D; assumption|assumption].
     + rframe HI t Hpc. intros _. unfold stage_ok, cons. rewrite Hpc. rsp. intros [-> ->]. reflexivity.
   - (* FWLock *) destruct (writer s); [discriminate|]. destruct (readers s); [|discriminate]. injection Hs as <-. rframe HI t Hpc.
   - (* FPut *) destruct (closed s) eqn:Hcl; injection Hs as <-.
     + rframe HI t Hpc. congruence.
-    + pose proof HI as [M M' O F St].
+    + pose proof HI as [M M' O F St Dn].
       assert (Hmine : alookup Nat.eqb (t_key (ts s t)) (calls s) = Some c) by (apply M'; rewrite Hpc; reflexivity).
       constructor; cbn [calls wg cval cerr next resources closed readers writer nextid open ts trace cre ncre closedids].
       * intros k c' Hk. destruct (M _ _ Hk) as [A B]. case_t (cre s c') t; rsp; [|auto]. rewrite Hpc in A. auto.
@@ -153,9 +162,10 @@ Proof.
            destruct (rown_of (t_pc (ts s u))) as [d|] eqn:Hou.
            ++ exfalso. apply E. apply (r_unique s u t d c HI Hou); [rewrite Hpc; reflexivity|assumption].
            ++ destruct (t_pc (ts s u)); simpl in Hou; try discriminate; exact Logic.I.
+      * intros c'. destruct (Dn c') as [D|D]; [auto|]. right. case_t (cre s c') t; rsp; [rewrite Hpc in D; assumption|assumption].
   - (* FWUnlock *) injection Hs as <-. rframe HI t Hpc.
   - (* SDel *) injection Hs as <-.
-    pose proof HI as [M M' O F St].
+    pose proof HI as [M M' O F St Dn].
     assert (Hmine : alookup Nat.eqb (t_key (ts s t)) (calls s) = Some c) by (apply M'; rewrite Hpc; reflexivity).
     constructor; cbn [calls wg cval cerr next resources closed readers writer nextid open ts trace cre ncre closedids].
     + intros k c'. destruct (Nat.eq_dec k (t_key (ts s t))) as [->|Hk].
@@ -170,12 +180,16 @@ Proof.
       * intros _. pose proof (St Hc t) as S1. unfold stage_ok in S1. rewrite Hpc in S1. exact S1.
       * rewrite alookup_aremove_neq by assumption. apply (F Hc).
     + intros Hc u. case_t u t; [exact Logic.I|]. apply (St Hc).
+    + intros c'. destruct (Nat.eq_dec c' c) as [->|Hn]; [left; apply upd_same|].
+      rewrite upd_other by assumption. destruct (Dn c') as [D|D]; [auto|]. right.
+      case_t (cre s c') t; [rewrite Hpc in D; simpl in D; congruence|assumption].
   - (* CLock *) destruct (writer s); [discriminate|]. destruct (readers s); [|discriminate]. injection Hs as <-. rframe HI t Hpc.
-  - (* CClose *) injection Hs as <-. destruct HI as [M M' O F St].
+  - (* CClose *) injection Hs as <-. destruct HI as [M M' O F St Dn].
     constructor; cbn [calls wg cval cerr next resources closed readers writer nextid open ts trace cre ncre closedids]; try discriminate.
     + intros k c' Hk. destruct (M _ _ Hk) as [A B]. case_t (cre s c') t; rsp; [rewrite Hpc in A; discriminate|auto].
     + intros u c'. case_t u t; rsp; [discriminate|apply M'].
     + intros u c'. case_t u t; rsp; [discriminate|apply O].
+    + intros c'. destruct (Dn c') as [D|D]; [auto|]. right. case_t (cre s c') t; [rewrite Hpc in D; discriminate|assumption].
   - (* CUnlock *) injection Hs as <-. rframe HI t Hpc.
 Qed.
 
@@ -217,4 +231,19 @@ Proof.
     destruct (Nat.eqb k k'); [injection Hk as <-; auto|auto].
   - intros id Hin. apply in_or_app. left. apply in_rev. rewrite rev_involutive. 
     apply in_map_iff in Hin as (kv & <- & Hin). apply in_map_iff. exists kv. auto.
+Qed.
+
+(* a create() that fails or panics winds the flight up like a successful one: once the call that
+   ran the flight is gone, its waiters are released and the key has no entry *)
+Lemma rm_panic_safe scripts sched :
+  let s := run step sched (init scripts) in
+  (forall u c, t_pc (ts s u) = SWait c -> rown_of (t_pc (ts s (cre s c))) <> Some c ->
+               exists s', step (Thr u) s = Some s' /\ t_pc (ts s' u) = Idle) /\
+  (forall k c, alookup Nat.eqb k (calls s) = Some c -> rown_of (t_pc (ts s (cre s c))) = Some c).
+Proof.
+  intros s; subst s. set (s := run step sched (init scripts)).
+  assert (HI : RI s) by apply rrun_I. clearbody s. split.
+  - intros u c Hpc Hgone. destruct (r_done _ HI c) as [W|W]; [|contradiction].
+    unfold step. rewrite Hpc, W. simpl. eexists. split; [reflexivity|]. cbn [ts]. rewrite upd_same. reflexivity.
+  - intros k c Hk. apply (r_map _ HI _ _ Hk).
 Qed.
